@@ -326,3 +326,8 @@ impl DifficultyValues {
         diff_objects
     }
 }
+
+// Verification hook (compiled only by `cargo kani`, which sets `--cfg kani`).
+#[cfg(kani)]
+#[path = "/verif/harness/taiko_diff.rs"]
+pub(crate) mod verif_harness;
